@@ -129,6 +129,34 @@ static void schedule_scenario(int k)
   mc_eventf("ran" + obs);
 }
 
+// schedule() through ONE call site across re-initialisations of the tasking system with
+// different pool sizes (a value cached per call site or per process would show here)
+static void reinit_scenario(const char *sizes)
+{
+  Shared *sh = new Shared();
+  for (int i = 0; i < 4; i++)
+    sh->runs[i].store(0);
+  sem_init(&sh->done, 0, 0);
+  std::string obs;
+  for (int i = 0; sizes[i]; i++) {
+#if defined(RKCOMMON_TASKING_INTERNAL)
+    initTaskingSystem(sizes[i] - '0');
+#endif
+    std::shared_ptr<std::vector<int>> heap = std::make_shared<std::vector<int>>(4, i + 1);
+    schedule([sh, heap, i]() {
+      MC_CHECK((*heap)[3] == i + 1, "schedule|closure state corrupted", "captured heap state differs");
+      sh->runs[i].fetch_add(1);
+      sem_post(&sh->done);
+    });
+    sem_wait(&sh->done);
+    for (int k = 0; k < 3; k++)
+      mc_yield();
+    obs += std::to_string(sh->runs[i].load());
+    MC_CHECK(sh->runs[i].load() == 1, "schedule|closure not executed exactly once", obs.c_str());
+  }
+  mc_eventf("reinit" + obs);
+}
+
 // ---------------------------------------------------------------- async()
 template <typename T>
 static void async_scenario(int k)
@@ -217,6 +245,8 @@ static void entry()
   std::string kind = n.substr(0, a), type = n.substr(a + 1, b - a - 1), param = n.substr(b + 1);
   if (kind == "schedule")
     schedule_scenario(atoi(param.c_str()));
+  else if (kind == "reinit")
+    reinit_scenario(param.c_str());
   else if (kind == "async") {
     int k = atoi(param.c_str());
     if (type == "int")
@@ -242,6 +272,8 @@ struct Reg
     auto add = [](const std::string &name, int bq, int bt) { new McRegister(strdup(name.c_str()), entry, bq, bt, 8000); };
     for (int k = 1; k <= 3; k++)
       add("schedule_x_" + std::to_string(k), k == 3 ? 1 : 2, k == 3 ? 2 : 3);
+    for (const char *seq : {"21", "12", "212", "121", "22", "11"})
+      add(std::string("reinit_x_") + seq, 1, 2);
     const char *types[] = {"int", "str", "trk"};
     for (const char *ty : types)
       for (int k = 1; k <= 2; k++)
